@@ -21,6 +21,7 @@ import (
 	"sort"
 	"strings"
 	"syscall"
+	"time"
 
 	"chainguard.dev/apko/pkg/apk/apk"
 	apkfs "chainguard.dev/apko/pkg/apk/fs"
@@ -52,7 +53,22 @@ const T = "/O/" + nest + "/T"
 
 var designated = []string{"root", "cache", "tmp", "out"}
 
+// wall time per experiment class (a STAT line at the end of the stage)
+var (
+	classTime  = map[string]float64{}
+	caseStart  time.Time
+	classOrder []string
+)
+
+func clock(class string) {
+	if _, ok := classTime[class]; !ok {
+		classOrder = append(classOrder, class)
+	}
+	classTime[class] += time.Since(caseStart).Seconds()
+}
+
 func newCanary() *canary {
+	caseStart = time.Now()
 	base := os.Getenv("C18_TMP")
 	outer, err := os.MkdirTemp(base, "c18canary")
 	if err != nil {
@@ -228,6 +244,7 @@ func emitCanary(w *gal.Writer, class string, ops []dop, exact bool, changed []st
 	term := fmt.Sprintf("(CCanary {| k_base := %s; k_roots := %s; k_ops := %s; k_exact := %s; k_changed := %s |})",
 		gal.Str(T+"/root"), rootsTerm, gal.List(ts), gal.Bool(exact), gal.StrList(changed))
 	w.Add(gal.Case{Term: term, Desc: desc, Class: class, Trivial: len(ops) == 0})
+	clock(class)
 }
 
 func runDirfsCase(w *gal.Writer, class string, ops []dop, exact bool) {
@@ -242,7 +259,8 @@ func runDirfsCase(w *gal.Writer, class string, ops []dop, exact bool) {
 }
 
 var upNames = []string{"../escaped.txt", "../host/new.txt", "../../c18-should-not-exist", "../host/sub/n", "../root2/n", "../outside/deep/n", "../decoy.txt",
-	"../host/file.txt", "../root2/secret", "a/../../x", "./../y", "..//z", "../out/../q"}
+	"../host/file.txt", "../root2/secret", "a/../../x", "./../y", "..//z", "../out/../q",
+	"../../sib2/n", "../../../c18-up3", "../c18-nd/sub/n", "../../../../../../c18-up6"}
 var inNames = []string{"a", "a/b", "etc/x", "/abs", "/etc/passwd", "..a", "...", "a/../b", "existing.txt", "l/x", "l", "l2/y", "%2e%2e/x", "a\x00b"}
 
 func randomOp(r *gal.Rand) dop {
@@ -420,6 +438,7 @@ func runCacheCase(w *gal.Writer, keyURL string, etag []string) {
 	term := fmt.Sprintf("(CCache {| q_root := %s; q_roots := %s; q_ustr := %s; q_path := %s; q_etag := %s; q_changed := %s |})",
 		gal.Str(T+"/cache"), rootsTerm, gal.Str(ustr), gal.Str(path), gal.Opt(etag != nil, gal.StrList(etag)), gal.StrList(changed))
 	w.Add(gal.Case{Term: term, Desc: desc, Class: "cache-keyring", Trivial: false})
+	clock("cache-keyring")
 }
 
 var jwkN, jwkE string
@@ -576,5 +595,7 @@ func stageCanary(w *gal.Writer, r *gal.Rand) {
 		runDiscoveryCase(w, "memfs", kid)
 	}
 	stageCanary2(w, r)
+	tb, _ := json.Marshal(classTime)
+	fmt.Printf("STAT {\"seconds_per_experiment\": %s}\n", tb)
 	fmt.Printf("STAT %s\n", `{"canary":"root/ cache/ tmp/ out/ + decoys (host/, root2/, cachefoo/, outside/, decoy.txt, hostlink); snapshot = path, type, permission bits, link count, content hash"}`)
 }
